@@ -99,3 +99,31 @@ def targets(tier):
         Target("robust.split_directive", "mypy.config_parser:split_directive", setup_split, ensures=[("returns-parts-and-errors", ens_split)], raises=(),
                loops=loops, note="inline `# mypy:` comments are input text; index safety of both scanning loops"),
     ] + more_targets()
+
+
+# ---- no visitor entry point lets the 'this expression is not a type' signal escape
+
+
+def check_type_translation_escapes():
+    from frames import escapes
+
+    seen, F = escapes.scan()
+    if seen < 500 or "expr_to_analyzed_type" not in F:
+        return [{"name": "escapes/scan", "status": "unknown", "where": f"{seen} functions scanned, propagating set {sorted(F)}: layout changed?"}]
+    obs = [{"name": "escapes/propagating-functions-computed", "status": "discharged", "where": f"{seen} functions; TypeTranslationError may propagate out of: {', '.join(sorted(F))}"}]
+    entry = sorted(n for n in F if n.startswith("visit_"))
+    for n in entry:
+        rel, ln, callee = F[n][0]
+        obs.append({"name": f"escapes/visitor-entry-point-contains-the-signal/{n}", "status": "refuted", "where": f"{rel}:{ln} unprotected call of {callee}",
+                    "detail": f"{n} is called by the tree traversal with no handler above it: an expression that is not a type (a call, a lambda, `int + str`) ends in INTERNAL ERROR instead of a diagnostic",
+                    "key": f"escapes:{n}", "confirmed": True})
+    if not entry:
+        obs.append({"name": "escapes/no-visitor-entry-point-lets-TypeTranslationError-escape", "status": "discharged", "where": "visit_* methods of the semantic analyzer / expression checker"})
+    return obs
+
+
+def targets_escapes(tier):
+    from pyvc.runner import StaticCheck
+
+    return [StaticCheck("robust.type_translation_error_contained", check_type_translation_escapes,
+                        note="fixpoint over call sites by simple name; handlers recognised: TypeTranslationError, Exception, BaseException, bare except")]
